@@ -53,6 +53,8 @@ class Float(float, AnyAtomicType):
                         pass
             elif Patterns.numeric_literal.match(value) is None:
                 raise cls._invalid_value(value)
+        elif isinstance(value, int):
+            value = str(int(value))  # as through xs:string: INF beyond the range, no OverflowError
         elif math.isnan(value):
             try:
                 return float_nan
